@@ -120,7 +120,7 @@ def main():
             {"name": "falcon-mc", "path": "/verif/harness", "serves_properties": sorted(CHECKS),
              "kind_free_text": "Rust harness linked against the real falcon-rust crate (hooks on): exhaustive input enumeration (E1/E2), deviation-bounded environment-answer exploration (E3), call-level schedule/history exploration on real threads and fresh child processes with a differential oracle (E4); reference models in harness/src/refmodel; PQClean (vendored C) as third-source oracle"},
             {"name": "falcon-mc-shuttle", "path": "/verif/shuttle/driver", "serves_properties": ["C01", "C02", "C04", "C05", "C08", "C10", "C15", "C16"],
-             "kind_free_text": "E5: shuttle DFS over all schedules of 2-3 threads calling sign/keygen on an instrumented copy of the library sources (tools/instrument.py rewrites std::sync, std::thread, thread_local!, lazy_static!, OnceLock/LazyLock to shuttle's), differential oracle against the same calls run alone"},
+             "kind_free_text": "E5: own exhaustive preemption-bounded scheduler (CHESS-style, deviations ordered by window then preemption count; one forked process per execution, set-up in a process of its own) on the shuttle engine, over programs of 2-4 threads calling sign / verify / keygen / from_bytes on an instrumented copy of the library sources (tools/instrument.py rewrites std::sync, std::thread, thread_local!, lazy_static!, OnceLock/LazyLock to shuttle's and inserts scheduling points at unsafe blocks and static mut uses); oracle: each result equals the same call made alone, signatures verify, salts differ, and a sequential re-check after the threads have joined"},
         ],
         "checks": checks,
         "not_applicable": na,
